@@ -292,6 +292,11 @@ def rule_p1(ctx):
         for gb, gt, roots in gets:
             if _dominated_by_edges(mb, _some_edges(mb, gt), b):
                 ok_roots |= roots
+        # a key that is itself taken from iterating one of the operand memos is a member of that memo
+        if len(t["args"]) > 1:
+            for (r, pth) in mb.trace_operand(t["args"][1]):
+                if r[0] == "arg" and pth and pth[0] == "cache":
+                    ok_roots.add(r)
         have = {r for r in ok_roots if r[0] == "arg"}
         if {("arg", 3), ("arg", 4)} <= have:
             res.ok({"site": "mux_panic memo insert", "verdict": "only for conditions present in both branch memos"})
